@@ -99,6 +99,8 @@ type Alter struct {
 }
 type Cfg struct {
 	Msts    []MstCfg `json:"msts"`
+	DBSK    []string `json:"dbsk"`  // DatabaseInfo.ShardKey.ShardKey (CREATE DATABASE .. WITH SHARDKEY), null = none
+	DBTyp   string   `json:"dbtyp"` // DatabaseInfo.ShardKey.Type: "" (what CREATE DATABASE stores) or "hash"
 	Typ     string   `json:"typ"`
 	Dur     int64    `json:"dur"`
 	PtNum   int      `json:"ptnum"`
